@@ -226,10 +226,46 @@ func (fe *analyticFieldEngine) applyCall(s *Stream, row map[string]any, c types.
 	if err != nil || args == nil {
 		args = []any{}
 	}
+	nilUnresolvedColumns(c.Args, args, row)
 	if hasStarArg(c.Args) {
 		args = expandStarArgs(c.Args, row, args)
 	}
 	return state.Apply(args)
+}
+
+// nilUnresolvedColumns turns an argument that is a bare column name absent from the row
+// into NULL. parseFunctionArgs leaves such an argument as the identifier text (scalar
+// functions rely on bare words like true/false passing through), so a row without column v
+// would otherwise feed the string "v" into lag/latest/acc_*/had_changed.
+func nilUnresolvedColumns(argTexts []string, args []any, row map[string]any) {
+	for i := range args {
+		if i >= len(argTexts) {
+			return
+		}
+		text := strings.TrimSpace(argTexts[i])
+		if s, ok := args[i].(string); !ok || s != text || !isBareColumnName(text) {
+			continue
+		}
+		if _, exists := lookupRowField(row, text); !exists {
+			args[i] = nil
+		}
+	}
+}
+
+func isBareColumnName(s string) bool {
+	switch strings.ToLower(s) {
+	case "", "true", "false", "null":
+		return false
+	}
+	for i, r := range s {
+		switch {
+		case r == '_' || r == '.' || (r >= 'a' && r <= 'z') || (r >= 'A' && r <= 'Z'):
+		case r >= '0' && r <= '9' && i > 0:
+		default:
+			return false
+		}
+	}
+	return true
 }
 
 // evaluateMultiColumn 处理 changed_cols 等多列函数：按 prefix+列名 扇出变化列。
@@ -238,6 +274,7 @@ func (fe *analyticFieldEngine) evaluateMultiColumn(s *Stream, row map[string]any
 	if err != nil || values == nil {
 		values = []any{}
 	}
+	nilUnresolvedColumns(fe.af.Args, values, row)
 	// 位置参数：优先用已求值；"*" 致解析失败时用字面量还原 prefix/ignoreNull。
 	argVal := func(idx int) any {
 		if idx < len(values) {
